@@ -293,8 +293,16 @@ class QuickSampler:
                 built_circuit.U_full, in_state, full_ostate
             )
             # Add output to distribution
-            if p > settings.sampler_probability_threshold:
+            if p > 0:
                 pdist[State(ostate)] = p
+        # Remove outputs which are negligible compared to the total
+        # probability of the valid outputs
+        p_total = sum(pdist.values())
+        pdist = {
+            s: p
+            for s, p in pdist.items()
+            if p > settings.sampler_probability_threshold * p_total
+        }
         # Normalise probability distribution
         p_total = sum(pdist.values())
         for s, p in pdist.items():
